@@ -141,6 +141,8 @@ LINTS = [
      "a language value is compared with \"c++\" after it was normalised to \"cxx\""),
     ("write-only-key", lints.write_only_key, {"C01", "C04"},
      "a key is stored in the one of attrs / metaattrs that nobody reads it from"),
+    ("undefined-name", lints.undefined_names, BEHAVIOURAL | {"C17"},
+     "a name is read that is bound nowhere: NameError when the statement is reached"),
     ("lost-reset", _lost_reset, BEHAVIOURAL,
      "per-iteration state (recorded in sa/periter.json) is no longer re-initialised inside its loop"),
 ]
@@ -161,6 +163,8 @@ def run_general(repo, run, R, pid, modules=MODULES):
                 props = set(domain)      # the lint is about this property's subject wherever it fires
             if name == "lost-reset" and isinstance(node, ast.Assign):
                 props = PERITER_PROPS.get(("%s.%s" % (mn, q), node.targets[0].id), props)
+            if name == "undefined-name":
+                props = props | {"C17"}    # an internal failure on whatever input reaches the statement
             if name == "container-option":
                 # the option that is read says which wrapper it configures; C14 is about where an option may be stated
                 import re
